@@ -78,13 +78,16 @@ EXTRA = {"C20": extra.sanitizer_phase, "C14": extra.puml_tokenizer_phase,
 # random machine definitions (gen/randdef.py, name rand<seed>) added to the conformance phase: a few fixed seeds in the quick tier
 # (their drivers stay in the ccache), more in the thorough tier
 RAND = {
- "C01": ((7, 12), (18, 30, 33, 34, 35, 36)),
- "C02": ((9, 46), (23, 28, 37, 38, 40, 49)),
- "C03": ((3, 18), (7, 9, 12, 27, 41, 42)),
- "C06": ((27, 49), (30, 3, 12, 43, 44, 45)),
- "C07": ((7, 28), (9, 18, 46, 47, 48, 50)),
- "C13": ((3, 8, 23), (11, 12, 27, 46, 49, 51, 53, 54, 55, 56, 57, 58)),
+ "C01": ((7, 12, "x9"), (18, 30, 33, 34, 35, 36, "x2", "x24", "x31")),
+ "C02": ((9, 46), (23, 28, 37, 38, 40, 49, "x7", "x10")),
+ "C03": ((3, 18), (7, 9, 12, 27, 41, 42, "x15", "x32")),
+ "C05": (("x6", "x19"), ("x1", "x8", "x11", "x21")),
+ "C06": ((27, 49), (30, 3, 12, 43, 44, 45, "x29", "x40")),
+ "C07": ((7, 28, "x34"), (9, 18, 46, 47, 48, 50, "x20")),
+ "C08": (("x73",), (9, 46, 49, "x45")),
+ "C13": ((3, 8, 23, "x12"), (11, 12, 27, 46, 49, 51, 53, 54, 55, 56, 57, 58, "x5", "x27", "x39")),
+ "C18": (("x12", "x36"), ("x5", "x20", "x27", "x38", "x39")),
 }
 def rand_seeds(prop, tier):
     q, t = RAND.get(prop, ((), ()))
-    return list(q) if tier == "quick" else list(q) + list(t)
+    return [str(k) for k in (list(q) if tier == "quick" else list(q) + list(t))]
